@@ -168,7 +168,13 @@ pub fn rt(toks: &[&str]) -> String {
 pub fn enc(toks: &[&str]) -> String {
     let p = undump(toks);
     let size: usize = num(toks, "size");
-    hex(&p.serialise_with_size(size))
+    let w = p.serialise_with_size(size);
+    // and what the crate's own decoder reads from it (C14: decode(encode(m)) with the implementation on both sides)
+    let back = match verif::parse(&w) {
+        Ok(q) => format!("ok {}", dump(&q)),
+        Err(_) => "err".into(),
+    };
+    format!("{} back {}", hex(&w), back)
 }
 
 /// `inreply lip=<ip> q=[<dump tokens with q. prefix>] …`: `create_in_reply(msg, outr)`.
